@@ -12,6 +12,13 @@ def norm(text):
     return re.sub(r'-?\d+', 'N', text)[:60]
 
 
+def short_trace(tr):
+    """the arm a trace starts in, without binding names: `Expr::While{condition, body} / if ..` -> `Expr::While`"""
+    import re
+    m = re.match(r'[A-Za-z_][A-Za-z_0-9:]*', tr.strip('<'))
+    return m.group(0) if m else tr.split(' / ')[0]
+
+
 def analyse(ctx):
     def build():
         F = ctx.facts()
@@ -149,7 +156,7 @@ def analyse(ctx):
             for n in find_all(f['body'], lambda n: n.get('k') == 'mcall' and path_of(n['recv']) == ['self'] and n['method'] in ('emit_opcode', 'emit_u8', 'emit_u16', 'change_jump_operand_at', 'remove_last_instruction')):
                 sites.setdefault(name, {}).setdefault(n['method'], 0)
                 sites[name][n['method']] += 1
-        return {'csa': c, 'rounds': rounds, 'violations': [dict(oblig=k[0], method=k[1], construct=k[2] + ' :: ' + k[3], text=v or k[3]) for k, v in viols.items()],
+        return {'csa': c, 'rounds': rounds, 'violations': [dict(oblig=k[0], method=k[1], construct=k[2] + ' :: ' + k[3], text=v or k[3], kc=short_trace(k[2]) + ' :: ' + k[3][:48]) for k, v in viols.items()],
                 'arms': arms, 'errs': errs, 'toperrs': toperrs, 'fused': fused, 'sites': sites, 'vm_problems': probs, 'optable': opt, 'decl': decl,
                 'summaries': {m: [(repr(x.dh), x.last, x.reach) for x in ex.values()] for m, ex in c.summaries.items()}}
     return _memo(ctx, 'csa', build)
